@@ -11,7 +11,7 @@ from ..util import Abort, Info, cm_enter, cm_exit, expect, expect_eq, impl
 
 ID = "C05"
 LEVEL = "fault_enumeration"
-BUDGET = {"quick": 1400, "thorough": 300000}
+BUDGET = {"quick": 1600, "thorough": 300000}
 RULE = (
     "case = (prune flag, prior history incl. earlier batches, batch op list, follow-up "
     "history). Each case is executed once per EXIT of the batch, all enumerated: normal "
@@ -128,8 +128,15 @@ def _run_exit(case, exit_kind, exit_arg, info):
                       "reference counts")
 
     # the trie must remain fully usable and correct afterwards
+    # (the follow-up history is played without per-step oracles - any exception from it is
+    # a violation - and everything is compared once at its end; the first exit of each
+    # case gets the full per-step oracles)
     checks = {"map", "root"} | ({"prune"} if prune else set())
-    run_history(None, checks, info, state=(trie, db, model), ops=case["rest"])
+    if exit_kind == "commit" or (exit_kind == "abort" and exit_arg == 0):
+        run_history(None, checks, info, state=(trie, db, model), ops=case["rest"])
+    else:
+        play(trie, model, case["rest"])
+        run_history(None, checks, info, state=(trie, db, model), ops=[])
     return measured_w, effective_on_existing
 
 
